@@ -2,6 +2,10 @@
   Driver.Config — line protocol of the `config` sub-harness (C15).
 
     scenario := ["EV" n (namehex value)^n] ["CF" | "OA" n (pathhex node)^n] opt* ("IN" opt*)* "|" path*
+              | "GS" opt* (("GS" | "NA") opt*)* "|" path*
+                 a PROCESS history: `GS` = app.Settings(the options up to the next mark), `NA` = a new App:
+                 app.NewApp().Run(the options up to the next mark) (`Ioc.Config.runProc`); one phase per App, every App
+                 is started whatever became of the earlier ones
                  `EV` = n variables the harness puts into the ENVIRONMENT of the process for the duration of the scenario
                  (value: hex, or `*` = as the process has it).  The effective configuration is a function of the loader
                  outputs alone (`Ioc.Config` has no environment): the prefix is checked for its form and dropped (`dropEnv`)
@@ -17,6 +21,9 @@
               | "SC" n loader^n      app.SetConfigure(fresh configure with SetLoaders(…))
               | "SF" loader          app.SetConfig(file)            (loader must be `f …` or `~ k`)
     loader   := "r" out | "f" out | "p" int out | "o" int out       raw / file / Priority raw / Ordered raw
+              | "n" out                                             a FileLoader whose path is a named pipe that delivers
+                                                                    `out` once: LoadConfig reads to the end of the input
+                                                                    (os.ReadFile), so it is the FileLoader with that output
               | "a" n (pathhex node)^n                              ArgsLoader with n `--app.config=path=value`
               | "=" k                                               the same loader object as the k-th loader of the line
               | "~" k                                               a new FileLoader on the path of the k-th loader
@@ -107,6 +114,7 @@ def pLoader (fuel id : Nat) (env : List Loader) : Toks → Option (Loader × Tok
     | none => none
   | "r" :: r => (pOut fuel r).map fun (o, r') => (⟨id, .plain, o⟩, r')
   | "f" :: r => (pOut fuel r).map fun (o, r') => (fileLoader id o, r')
+  | "n" :: r => (pOut fuel r).map fun (o, r') => (pipeLoader id o, r')
   | "p" :: k :: r => match k.toInt? with
     | some ki => (pOut fuel r).map fun (o, r') => (⟨id, .prio ki, o⟩, r')
     | none => none
@@ -125,18 +133,24 @@ def pLoaders (fuel : Nat) : Nat → Nat → List Loader → Toks → Option (Lis
     | some (l, r) => (pLoaders fuel k (id+1) (env ++ [l]) r).map fun (ls, id', env', r') => (l :: ls, id', env', r')
     | none => none
 
-/-- an option, or `IN` (none): Initialize now -/
-abbrev Item := Option Opt
+/-- an option, or a mark: `IN` Initialize now, `GS` app.Settings(what follows), `NA` a new App runs with what follows -/
+inductive Item
+  | opt (o : Opt)
+  | init
+  | settings
+  | newApp
 
 def pOpts : Nat → Nat → List Loader → Toks → Option (List Item × Toks)
   | 0, _, _, _ => none
   | _, _, _, [] => none
   | f+1, id, env, tok :: rest =>
     if tok = "|" then some ([], rest)
-    else if tok = "IN" then (pOpts f id env rest).map fun (os, r') => (none :: os, r')
+    else if tok = "IN" then (pOpts f id env rest).map fun (os, r') => (.init :: os, r')
+    else if tok = "GS" then (pOpts f id env rest).map fun (os, r') => (.settings :: os, r')
+    else if tok = "NA" then (pOpts f id env rest).map fun (os, r') => (.newApp :: os, r')
     else if tok = "SF" then
       match pLoader (f+1) id env rest with
-      | some (l, r) => (pOpts f (id+1) (env ++ [l]) r).map fun (os, r') => (some (.setConfig l) :: os, r')
+      | some (l, r) => (pOpts f (id+1) (env ++ [l]) r).map fun (os, r') => (.opt (.setConfig l) :: os, r')
       | none => none
     else
       match rest with
@@ -149,7 +163,7 @@ def pOpts : Nat → Nat → List Loader → Toks → Option (List Item × Toks)
               if tok = "SL" then some (.setLoaders ls) else if tok = "AL" then some (.addLoaders ls)
               else if tok = "CA" then some (.configureAdd ls) else if tok = "SC" then some (.setConfigure ls) else none
             match mk with
-            | some o => (pOpts f id' env' r).map fun (os, r') => (some o :: os, r')
+            | some o => (pOpts f id' env' r).map fun (os, r') => (.opt o :: os, r')
             | none => none
           | none => none
         | none => none
@@ -188,11 +202,30 @@ def query (c : Cfg) (p : Bytes) : String :=
 /-- the batches between the `IN` marks (k marks → k+1 batches) -/
 def batches : List Item → List (List Opt)
   | [] => [[]]
-  | none :: rest => [] :: batches rest
-  | some o :: rest =>
+  | .opt o :: rest =>
     match batches rest with
     | b :: bs => (o :: b) :: bs
     | [] => [[o]]
+  | _ :: rest => [] :: batches rest
+
+/-- the steps of a process history: every `GS` / `NA` mark opens a step, the options up to the next mark belong to it
+    (options before the first mark: there are none, a history starts with `GS`) -/
+def procSteps : List Item → List ProcStep
+  | [] => []
+  | .settings :: rest =>
+    match batches rest with
+    | b :: _ => .settings b :: procSteps rest
+    | [] => .settings [] :: procSteps rest
+  | .newApp :: rest =>
+    match batches rest with
+    | b :: _ => .newApp b :: procSteps rest
+    | [] => .newApp [] :: procSteps rest
+  | _ :: rest => procSteps rest
+
+def renderApp (paths : List Bytes) : Except Bool St → String
+  | .error true => "panic"
+  | .error false => "err"
+  | .ok s => joinWith " " (paths.map (query s.acc))
 
 /-- one Initialize per batch on the same live Configure; the observation ends at the first error / panic -/
 def runBatches (paths : List Bytes) : St → List (List Opt) → List String
@@ -237,6 +270,8 @@ def handle (line : String) : String :=
     | some (items, pathToks) =>
       match pathToks.mapM fromHex with
       | none => "bad-line"
-      | some paths => joinWith " / " (runBatches paths (if bare then St.bare else St.appCmd pairs) (batches items))
+      | some paths =>
+        if toks0.head? = some "GS" then joinWith " / " ((runProc [] (procSteps items)).map (renderApp paths))
+        else joinWith " / " (runBatches paths (if bare then St.bare else St.appCmd pairs) (batches items))
 
 end Driver.Config
